@@ -86,10 +86,33 @@ def run_shard(spec, acc):
     maps = pref_maps(rng)
     # the decoder works with the preferences it was GIVEN: the application's dictionary is changed right after construction
     # (cleared, then filled with something else) and must not matter any more
+    # ... and the other settings of a decoder do not decide whether a message is converted: a dump file (everything / a
+    # filter that selects some PGNs of this shard by number or by id / a filter that selects nothing that travels here),
+    # a PGN filter that concerns other PGNs
+    import os
+    import shutil
+    from .. import runner
+    dump_dir = os.path.join(runner.SCRATCH, f"c18-dump-{os.getpid()}")
+    shard_pgns = sorted(mine)
+    elsewhere = [d_ for d_ in all_defs if d_.pgn not in mine]
     long_lived = []
-    for lib_map, _ in maps:
+    for n_, (lib_map, _) in enumerate(maps):
         given = dict(lib_map)
-        long_lived.append(NMEA2000Decoder(preferred_units=given))
+        co = {}
+        kind_ = n_ % 6
+        if kind_ == 1:
+            co = {"dump_to_file": os.path.join(dump_dir, f"all{n_}.jsonl") if quick else "/dev/null"}
+        elif kind_ == 2:
+            co = {"dump_to_file": os.path.join(dump_dir, f"num{n_}.jsonl"), "dump_pgns": shard_pgns[::2] or [59392]}
+        elif kind_ == 3:
+            co = {"dump_to_file": os.path.join(dump_dir, "sub", f"ids{n_}.jsonl"), "dump_pgns": [d_.id for d_ in defs[1::3]] or ["isoRequest"]}
+        elif kind_ == 4 and elsewhere:
+            co = {"dump_to_file": os.path.join(dump_dir, f"none{n_}.jsonl"), "dump_pgns": [rng.choice(elsewhere).pgn, rng.choice(elsewhere).id]}
+        elif kind_ == 5 and elsewhere:
+            co = {"exclude_pgns": [rng.choice(elsewhere).id, rng.choice(elsewhere).pgn]}
+        acc.cover("co_settings_of_decoders_with_preferences", ["none", "dump-everything", "dump-filter-by-number", "dump-filter-by-id", "dump-filter-selects-nothing-here",
+                                                               "pgn-filter-on-other-pgns"][kind_] if co or kind_ == 0 else "none")
+        long_lived.append(NMEA2000Decoder(preferred_units=given, **co))
         given.clear()
         given[PhysicalQuantities.SPEED] = "kts"
         given[PhysicalQuantities.TEMPERATURE] = "f"
@@ -228,6 +251,9 @@ def run_shard(spec, acc):
                 acc.case((d.id, payload, repr(sorted((k.name, v) for k, v in lib_map.items()))) if n_conv else None)
         if len(acc.samples) < 4:
             acc.sample({"definition": d.id, "quantity_fields": [(f.id, f.pq) for f in qfields][:6], "payloads": len(payloads)})
+    for dec_ in long_lived:
+        dec_.close()
+    shutil.rmtree(dump_dir, ignore_errors=True)
 
 
 def replay(w, acc):
